@@ -133,3 +133,10 @@ Theorem C06_condition_renormalises : forall f (d : dist state),
   (m <> 0 -> mass k = 1).
 Proof. exact condition_renormalises. Qed.
 Print Assumptions C06_condition_renormalises.
+
+(* the cache of the event table (keyed on photon count AND filter): whatever filtered sampling calls were made before
+   on the same Source, the table used for a request (n, f) is the table of (n, f) *)
+Theorem C06_cache_history_independent : forall P h n f,
+  tc_val (cache_request P (cache_run P None h) n f) = prob_table P n f.
+Proof. exact cache_history_independent. Qed.
+Print Assumptions C06_cache_history_independent.
